@@ -11,11 +11,13 @@ HDR = ('From Coq Require Import NArith ZArith List Bool.\nImport ListNotations.\
        'From PQ Require Import Bits Pauli Code.\nLocal Open Scope N_scope.\n')
 
 
-def run_dump(workdir, tier, only=None, hashseed='0', sub='dump'):
+def run_dump(workdir, tier, only=None, hashseed='0', sub='dump', extra=False):
     out = os.path.join(workdir, sub)
     cmd = [PY, os.path.join(ROOT, 'drivers', 'dump_codes.py'), out, tier, '--jobs', str(NPROC)]
     if only:
         cmd += ['--only', ','.join(only)]
+    if extra:
+        cmd += ['--extra', extra]
     r = subprocess.run(cmd, env=driver_env(workdir, hashseed), capture_output=True, text=True,
                        cwd=workdir)
     if r.returncode != 0:
